@@ -222,6 +222,14 @@ def main():
                 reg["forms"][x["name"]] = {"prop": x["prop"], "group": gname, "call": x["call"], "pre": x["pre"], "oracle": x["oracle"], "tier": x["tier"], "bounded": x["bounded"], "relax": x["relax"]}
     here = os.path.dirname(os.path.abspath(__file__))
     open(os.path.join(here, "forms_gen.rs"), "w").write("".join(out))
+    # the same table for the native witness search (kani/native.rs)
+    nat = ["// GENERATED by kani/gen_forms.py -- do not edit\n", "pub static NFORMS: &[NForm] = &[\n"]
+    for f in F:
+        nat.append("    NForm { name: \"%s\", oracle: isa::f::%s, sym_pc: %s, regmask: 0x%x, relax: %s, b0: %s, b1: %s, w: [%s], pre: %d, call: |cpu, op, op2| { let _ = (op, op2); %s } },\n"
+                   % (f["name"], f["oracle"], "true" if f["pc"] == "sym" else "false", f["regmask"], "true" if f["relax"] else "false", spec(f["b0"]), spec(f["b1"]),
+                      ",".join(spec(x) for x in f["w"]), f["pre"], f["call"]))
+    nat.append("];\n")
+    open(os.path.join(here, "forms_native.rs"), "w").write("".join(nat))
     os.makedirs(os.path.join(here, "..", "lib"), exist_ok=True)
     json.dump(reg, open(os.path.join(here, "..", "lib", "forms.json"), "w"), indent=1, sort_keys=True)
     print("forms:", len(F), "groups:", len(reg["groups"]))
